@@ -99,7 +99,8 @@ type frRegistry struct {
 	counts  map[string]int
 	used    []string // faults actually applied
 	log     []string
-	needTok bool // every registry request must carry the bearer token
+	needTok   bool // every registry request must carry the bearer token
+	foldNames bool // repository names are looked up case-insensitively (as the real registry does)
 
 	// hook is called (without the lock) at every request and before every body chunk; it may block (crash harness)
 	hook func(ev string)
@@ -276,6 +277,9 @@ func (r *frRegistry) RoundTrip(req *http.Request) (*http.Response, error) {
 		return r.resp(req, 200, nil, body(js, "token"), int64(len(js))), nil
 	case "manifest":
 		m := r.models[arg]
+		if m == nil && r.foldNames {
+			m = r.models[strings.ToLower(arg)]
+		}
 		if m == nil {
 			return r.text(req, 404, `{"errors":[{"code":"MANIFEST_UNKNOWN"}]}`), nil
 		}
